@@ -85,7 +85,7 @@ def batch(pid, tier, master, n):
         buf = io.StringIO()
         with contextlib.redirect_stdout(buf):
             rc = driver.run_batch(pid, tier, master, budget_s=3600, max_runs=n, workers=workers)
-        with open(os.path.join(driver.VERIF, "evidence", f"{pid}.json")) as f:
+        with open(os.path.join(driver.evidence_dir(), f"{pid}.json")) as f:
             ev = json.load(f)
         outs.append((rc, ev["coverage"]["evaluations"], ev["coverage"]["distinct_nontrivial"],
                      ev["coverage"]["result_set_digest"]))
